@@ -55,6 +55,75 @@ def judge(sem, obs, gtypes=None):
     return ("agree", "")
 
 
+def conformance_work(job):
+    """Generic spec->code replay of programs that TLC built, judged and ran.
+    job = (labels, items); labels = {accepts_bad: (key, text), rejects_good: (keyprefix, text), entry, budget};
+    items = [(key, [records...])], every record carrying ok, status, ret, globals, steps, args, init_globals and
+    (at least one of them) prog.  Returns [(violation key | None | 'HOOK', text, case)]."""
+    import nslast as A
+    from common import time_limit, CaseTimeout
+    labels, items = job
+    out = []
+    for key, recs in items:
+        prog = [r for r in recs if isinstance(r.get("prog"), dict) and "funcs" in r["prog"]][0]["prog"]
+        ok = recs[0]["ok"]
+        src = A.pp(prog)
+        case = {"case": key, "source": src, "language_accepts": ok}
+        for opt in (False, True):
+            c2 = dict(case, optimize=opt)
+            try:
+                with time_limit(120):
+                    st, r, info = common.compile_traced(src, {"optimize": opt})
+            except CaseTimeout:
+                out.append(("compile-timeout", "compilation did not finish in 120 s", c2))
+                continue
+            if not info["hook_ok"]:
+                out.append(("HOOK", None, None))
+            if st == "ok" and not ok:
+                out.append((labels["accepts_bad"][0], labels["accepts_bad"][1], c2))
+                continue
+            if st != "ok" and ok:
+                why = info["failed_pass"] or ":".join(str(r).split(":")[:2])
+                out.append((f"{labels['rejects_good'][0]}:{why}", f"{labels['rejects_good'][1]} ({str(r)[:70]}; failed pass: {info['failed_pass']})", c2))
+                continue
+            if st != "ok":
+                out.append((None, "ok-reject:" + (info["failed_pass"] or "crash:" + ":".join(str(r).split(":")[:2])), None))
+                continue
+            out.append((None, "ok-accept", None))
+            program = A.link(r)
+            for rec in recs:
+                args = {k: A.dec(v) for k, v in rec["args"].items()}
+                g0 = {k: A.dec(v) for k, v in rec["init_globals"].items()} if isinstance(rec["init_globals"], dict) else {}
+                obs = A.run_vm(program, labels.get("entry", "f"), args, g0, budget=labels.get("budget", 100000))
+                kind, detail = judge(rec, obs)
+                c3 = dict(c2, args=args, init_globals=g0, reference={k: rec[k] for k in ("status", "ret", "steps", "globals")})
+                if kind in ("agree", "unjudged", "defined-fail"):
+                    out.append((None, "run-" + kind, None))
+                else:
+                    out.append(("run-" + kind, f"args {args}: {detail}", c3))
+    return out
+
+
+def tally(ctx, results):
+    """Fold conformance_work results into ctx.violations; returns (counts, evaluations)."""
+    counts = {}
+    evals = 0
+    hook_missing = 0
+    for out in results:
+        for key, what, case in out:
+            if key == "HOOK":
+                hook_missing += 1
+                continue
+            evals += 1
+            if key is None:
+                counts[what] = counts.get(what, 0) + 1
+            else:
+                ctx.violation(key, what, case)
+    if hook_missing:
+        raise common.Machinery(f"compiler hook silent in {hook_missing} compilations (NSL_VERIF hook missing from the tree under test?)")
+    return counts, evals
+
+
 def show_spec(s):
     t = s["t"]
     if t in ("int", "uint"):
